@@ -29,6 +29,9 @@ func genC01(t *rapid.T) c01Scenario {
 		RpmWindow: rapid.IntRange(1, 20).Draw(t, "window"), Stop: sim.StopSpec{AtMs: -1}}
 	sc.Law = sim.RpmLaw{Theta: rapid.SampledFrom([]int{0, 0, 30, 120, 256}).Draw(t, "theta"), Rpm: rapid.SampledFrom([]int{0, 1, 800, 1000000}).Draw(t, "rpm")}
 	n := rapid.IntRange(1, 60).Draw(t, "nSteps")
+	if fan.Kind == "cmd" && n > 25 {
+		n = 25 // every cycle of a script based fan costs several process executions
+	}
 	cv := rapid.OneOf(rapid.IntRange(-1000, 1000), rapid.IntRange(0, 255), rapid.SampledFrom(c01Curves))
 	for i := 0; i < n; i++ {
 		s := sim.Step{Curve: cv.Draw(t, "curve")}
